@@ -355,6 +355,12 @@ fn hidden_bar() -> ProgressBar {
 
 /// One differential run.  Returns (distinct-outcome hash, non-trivial) or a violation description.
 fn diff_run(fam: Family, calls: &[Call], script: &[(usize, Ans)]) -> Result<(u64, bool), (String, String)> {
+    diff_run_at(fam, calls, script, 2)
+}
+
+/// `step_ms` = virtual time between two calls (0: everything happens within one instant, faster than
+/// the bar's own update limiter refills).
+fn diff_run_at(fam: Family, calls: &[Call], script: &[(usize, Ans)], step_ms: u64) -> Result<(u64, bool), (String, String)> {
     clock::reset();
     let bare = Src::new(12, script);
     let inner = Src::new(12, script);
@@ -367,8 +373,14 @@ fn diff_run(fam: Family, calls: &[Call], script: &[(usize, Ans)]) -> Result<(u64
     let (mut lf1, mut lf2) = (0usize, 0usize);
     let mut results = Vec::new();
     let mut model_pos = 0u64;
+    // use up the burst of the bar's update limiter first when no time passes between the calls
+    if step_ms == 0 {
+        for _ in 0..12 {
+            pb.inc(0);
+        }
+    }
     for (i, &c) in calls.iter().enumerate() {
-        clock::advance_ms(2);
+        clock::advance_ms(step_ms);
         if c == Call::BarSetPos {
             pb.set_position(40);
             model_pos = 40;
@@ -489,8 +501,10 @@ fn sync_part(tier: Tier, shard: Shard, stats: &mut Stats, case: &mut u64) {
                 }
                 stats.evaluations += 1;
                 stats.transitions += calls.len() as u64;
-                let hist = vec![format!("{:?}", fam), format!("calls {:?}", calls), format!("script {:?}", script)];
-                match catch(|| diff_run(fam, calls, script)) {
+                // the empty-script cases run a second time with a frozen clock
+                for step_ms in if script.is_empty() { vec![2u64, 0] } else { vec![2] } {
+                let hist = vec![format!("{:?}", fam), format!("calls {:?}", calls), format!("script {:?}{}", script, if step_ms == 0 { " (no time passes between the calls; the bar's update limiter is exhausted)" } else { "" })];
+                match catch(|| diff_run_at(fam, calls, script, step_ms)) {
                     Err(p) => stats.violation(Violation { class: format!("panic: {}", panic_class(&p)), config: format!("{:?}", fam), history: hist, detail: p }),
                     Ok(Err((class, detail))) => stats.violation(Violation { class: format!("{:?}: {class}", fam), config: format!("{:?}", fam), history: hist, detail }),
                     Ok(Ok((h, nt))) => {
@@ -499,6 +513,7 @@ fn sync_part(tier: Tier, shard: Shard, stats: &mut Stats, case: &mut u64) {
                             stats.sample(json!(hist));
                         }
                     }
+                }
                 }
             }
         }
